@@ -23,23 +23,43 @@ LEVEL_TEXT = ("Coq theorems over an exact-rational executable model of the block
               "it agrees with the repaired code off that diagonal and is refuted on it by computed witnesses (regression statements); "
               "(4) symmetry in exchangeable parents and traits, zero for identical parents, taxa equivariance under every index map, "
               "every entry of the two-, three-, four-way and dihybrid genic matrices = genetic with linkage ignored, "
-              "UC = mean + i*sqrt(var), Haldane no-interference over R. "
+              "UC = mean + i*sqrt(var), Haldane no-interference over R; "
+              "(5) the kernel expressions of the CURRENT source (rprob_filial / cov_D1s / cov_D2s / srange; for each of the eight genetic (co)variance loop nests: "
+              "group zip, chunk step, row / column chunk zips, which helper feeds D1 / D2, the taxa loop ranges, the accumulation index tuple, which D table and which two "
+              "haplotypes every partial sum combines, the combination, the scaling, the mirror loops and assignment, allocated shape, constructor keywords, epgc; "
+              "for the four genic classes: weights, parent tuple, per-marker term, loop ranges, written positions; _calc_uc's mean and criterion) are regenerated into "
+              "Gen/C12_Kernel.v on every run, proved equal to the model's, and the exactness / selfing / chunking / genic / usefulness theorems are restated about matrices "
+              "re-assembled from the generated definitions alone (C12_kernel_*): a changed expression breaks Props/C12.vo whatever the cases exercise; "
+              "(6) scale covariance (effects x c => every entry x c^2; UC conditions preserved) and the session law (a call's result is the model of the state at that call; "
+              "earlier calls leave no trace). "
               "The model is tied to the code by evaluating it inside Coq (vm_compute, exact Q, tolerance 2^-30) against the implementation's matrices.")
 LEVEL_NOTE = ("trusted: Coq kernel + vm_compute; classical-real axioms only in the Haldane lemma; the tie to the code is differential on generated inputs; "
               "recombination fractions r_ij are either computed in the model (positions on the k*ln2/2 grid where Haldane's r is the rational (1-2^-k)/2, "
               "proved to be chain fractions) or taken from the implementation's HaldaneMapFunction.mapfn on |genpos_i-genpos_j| and checked in Coq for "
               "no-interference multiplicativity (2^-30); the enumeration theorems quantify over rational gap probabilities (Haldane values are irrational; "
               "the identities are polynomial); nself=inf is covered by the limit bound, not by an enumeration; sqrt in UC compared through squares; "
-              "genic covariance classes (abstract in pybrops) and from_pandas/hdf5 round trips are not modelled; trait/taxa labels, epgc and the result class are checked by the predicate only")
+              "genic covariance classes (abstract in pybrops: the audit fails if they become instantiable) and from_pandas/hdf5 round trips are not modelled; "
+              "trait/taxa labels, epgc (also a generated kernel), the result class, axis properties, to_pandas rows, untouched inputs / unshared arrays / no stale results are checked by the predicate only; "
+              "the kernel translator (harness/translate/c12_kernel.py) is trusted and fail-closed; it translates index arithmetic over nat (all quantities are non-negative indices; the only "
+              "subtraction is lsp - lst of a group's bounds) and float expressions over Q (regime T); Kosambi cases: r_ij come from the implementation's KosambiMapFunction.mapfn "
+              "(the entry-exactness theorems hold for any table of pair fractions; the multi-locus no-interference theorems do not apply); cases with > 255 markers are predicate-only")
 TECHNIQUE = "Coq proof over an executable exact-rational model + enumeration semantics; in-Coq vm_compute correspondence; Python gamete enumeration as independent predicate"
 RULE = ("case = (scheme two|three|four|di, kind var|cov|genic|uc, entry point from_algmod|from_gmod|factory, phased 0/1 genotypes, chromosome sizes, "
         "positions (ln2/2 grid or dyadic), dyadic marker effects for 1-3 traits, nself in {0,1,2,3,5,inf}, mem in {1,2,3,5,None,...}); one PRNG; "
         "corners: 1 taxon, 1 marker, 1-marker chromosomes, duplicate parents, coincident positions, mem = / > chromosome size; every index tuple of every "
         "matrix is compared, so crosses with a repeated parent (female == male, female1 == male1, dihybrid selfs, genic diagonals) are in every case; "
+        "phase 2: entry-point audit by introspection (every public class / function / method / parameter of vmat, vmat.fcty, pcvmat, util.py, srange, the UC module is driven or listed in "
+        "SKIPPED with a reason; anything new fails), util.py helpers called directly (1-D and 2-D r, t = 0 variants), ncross in {1,3}, nprogeny in {1,10,80}, effects scaled by "
+        "2^{-40,-20,-8,0,7,20} (reported values divided by 4^e exactly), free positions scaled by 2^{-34,0,14}, Haldane and Kosambi, inputs obtained by constructor / copy / deepcopy / "
+        "select_taxa from a larger population / property setters / a session (same objects used for an earlier call in another state, then updated in place), from_pgmat_gpmod_xmap, "
+        "258-marker linkage group with mem in {127,128,None} (predicate only); after every call: inputs byte-identical, result shares no memory with inputs or a second result, a clobbered "
+        "result does not influence the next call, an earlier session result is untouched; axis properties and every to_pandas row against the matrix; "
         "non-trivial = some cross has parents differing at >= 2 linked markers; distinct by SHA-256 of the case")
 TRUSTED = ["numpy float64 matrix products are compared in tolerance regime T (2^-30 relative to 1+|exact value|) against the exact rational model",
            "free-position cases: the r_ij fed to the Coq model come from HaldaneMapFunction.mapfn (verified by C11); the predicate recomputes them with math.exp",
-           "numpy.empty is poisoned with NaN inside run_impl (harness side) so that reads of uninitialised memory are deterministic"]
+           "numpy.empty is poisoned with NaN inside run_impl (harness side) so that reads of uninitialised memory are deterministic",
+           "harness/translate/c12_kernel.py (ast -> Gen/C12_Kernel.v, fail closed) and the hand-written link lemmas of Proofs/C12_Kernel.v (reflexivity / case analysis)",
+           "scaling by powers of two commutes exactly with binary64 arithmetic in the absence of under/overflow (uscale in [-40, 20])"]
 ASSUMPTIONS = ["alleles coded 0/1, ploidy 2; two-/three-/four-way parents inbred (both phases identical); markers sorted by chromosome and position; mem >= 1 or None"]
 
 LN2H = math.log(2.0) / 2.0
@@ -63,7 +83,7 @@ def _mkcase(rng, scheme, kind, **kw):
             sizes = [rng.choice([1, 2, 3, 3, 4, 5, 6]) for _ in range(nchr)]
             if sum(sizes) <= maxp: break
     p = sum(sizes)
-    t = kw.get("t", rng.choice([1, 2, 2, 3]))
+    t = kw.get("t") or rng.choice([1, 2, 2, 3])
     pos = []
     for s in sizes:
         x = 0 if rng.random() < 0.5 else rng.randint(0, 3)
@@ -157,7 +177,8 @@ def gen_cases(rng, tier):
         for route in ("copy", "deepcopy", "select", "session", "setter"):
             cases.append(_mkcase(rng, scheme, rng.choice(["var", "cov"]), route=route, n=2 if scheme == "four" else 3, uscale=rng.choice([-40, 20, 0]),
                                  via=rng.choice(["algmod", "gmod"])))
-        cases.append(_mkcase(rng, scheme, "var", posmode="free", mapfn="kosambi", n=2, nself=rng.choice([0, 1, "inf"]), via="algmod"))
+        for kind_ in ("var", "cov"):
+            cases.append(_mkcase(rng, scheme, kind_, posmode="free", mapfn="kosambi", n=2, nself=rng.choice([0, 1, "inf"]), via="algmod", t=2 if kind_ == "cov" else None))
         cases.append(_mkcase(rng, scheme, "uc", route="session", uscale=-20, n={"two": 3, "three": 3, "four": 2, "di": 3}[scheme], ucvia="calc"))
     # more markers than a narrow integer can count (> 255), chunk size at the 128 boundary: predicate only (not evaluated in Coq)
     for scheme in (("two", "three") if tier == "quick" else SCHEMES):
